@@ -33,15 +33,15 @@ type parked struct {
 type Client struct {
 	// AnswerTravel, when set, runs between taking the answer to workspace/configuration and handing it over.
 	AnswerTravel func()
-	mu        sync.Mutex
-	seq       int
-	Published []Pub
-	park      bool
-	parkedQ   []*parked
-	cfg       any
-	cfgErr    bool
-	CfgCalls  int
-	Logs      []string
+	mu           sync.Mutex
+	seq          int
+	Published    []Pub
+	park         bool
+	parkedQ      []*parked
+	cfg          any
+	cfgErr       bool
+	CfgCalls     int
+	Logs         []string
 }
 
 func (c *Client) Progress(context.Context, *protocol.ProgressParams) error { return nil }
